@@ -926,6 +926,8 @@ def _c16_worker(job):
     out = {"seed": seed, "mismatches": [], "stats": {}, "ncmds": 0, "digest": 0, "nontrivial": True, "fault": None}
     try:
         s.do(1, [rng.choice([0, 1]), []])
+        for op, args in cfg.get("prelude", []):
+            s.do(op, args)
         for i in range(rng.randint(2, cfg["nw"])):
             op, args = G.gen_write(rng, s.tr, dict(G.DEFAULT_MIX, reopen=0, clear=0))
             s.do(op, args)
@@ -1047,6 +1049,31 @@ def c16_runner(prop, tier, seed, replay):
             nsched += 1
     if replay and replay_jobs(replay):
         jobs = replay_jobs(replay)
+    # a rule installation against a batch that touches the anchor node itself (new sibling stems of the anchor,
+    # new children, links to the anchor when it is a page): the installer holds a copy of that node across its yields
+    rng = random.Random(seed + 5)
+    nrule = 400 if tier == "thorough" else 80
+    for _ in range(nrule):
+        host = rng.choice([b"site", b"a", b"twitter"])
+        anchor = b"s:http|h:com|h:" + host + b"|" + (b"p:blog|" if rng.random() < 0.3 else b"")
+        parent = b"".join(x + b"|" for x in anchor.split(b"|")[:-2])
+        tag = anchor.split(b"|")[-2][:2]
+        sibs = [parent + tag + x + b"|" for x in (b"zzz", b"aaa", host + b"x", b"b")]
+        below = [anchor + b"p:" + x + b"|" for x in (b"a", b"b", b"c|p:d")]
+        pool = [rng.choice(sibs) + b"p:a|", rng.choice(sibs) + b"p:b|", rng.choice(sibs), rng.choice(below), anchor]
+        data, seen = [], set()
+        for _k in range(rng.randint(1, 3)):
+            src = rng.choice(pool)
+            if src in seen:
+                continue
+            seen.add(src)
+            data.append([src, [rng.choice(pool) for _j in range(rng.randint(1, 3))]])
+        specs = [[1, anchor, rng.choice([1, 2, 2, 3])], [0, data]]
+        if rng.random() < 0.3:
+            specs.append([0, [[rng.choice(pool), [rng.choice(pool)]]]])
+        sched = [rng.randrange(len(specs)) for _k in range(rng.randint(4, 30))]
+        jobs.append((seed + len(jobs), {"nw": 2, "specs": specs, "sched": sched,
+                                        "prelude": [[2, [rng.choice(below), rng.randint(0, 1)]], [2, [rng.choice(below), 0]], [2, [anchor, 1]]]}))
     results = pool_map(_c16_worker, jobs)
     violations = []
     for r in results:
